@@ -14,7 +14,10 @@ CHECK = {
                     "large windows are real memory (one 8 GiB MAP_NORESERVE mapping per process, only touched pages exist) that ends at an inaccessible page: a read beyond the buffer's memory faults; declared sizes larger than the memory behind them are not generated",
                     "ASan red zones around exact-size heap blocks observe reads beyond the buffer's memory",
                     "'rejected as illegal' is read as: an error, and not the code that says 'cut off, more octets needed' (-ENODATA); which code says 'illegal' is not fixed by the statement. Where the unterminated digits also exceed the type's width "
-                    "(last octet of the maximum length carries bits beyond 32/64) a second failure class applies and any negative code is accepted",
+                    "(last octet of the maximum length carries bits beyond 32/64) a second failure class applies and any negative code is accepted. "
+                    "Likewise (audit 6) where the memory behind the read cursor (in decode histories also: the fill mark) ends exactly at the type's maximum, all of it continuation octets: "
+                    "'cut off by the end of the buffer' is true of that input as well, a buffer decoder that tests the end of the memory before the maximum answers the cut-off code and consumes nothing; "
+                    "any negative code of the BUFFER decoder is accepted there (the source decoders, which have been handed the maximum number of octets and no end, still owe a code other than -ENODATA)",
                     "in place: the round-trip sentence is also demanded when the (aligned) result object lies inside the buffer's memory but does not overlap the encoding (canonical encodings only; nothing is demanded of the buffer's content afterwards). "
                     "Placements where the result object overlaps the encoding are run and logged but NOT judged (audit 5: the statement says nothing about the result aliasing the input; a decoder that sets *n = 0 on entry and accumulates directly into *n is ordinary hardening); class inplace-overlapping is optional; seeded change C14i is no longer reported",
                     "decode histories: the cut-off sentence (error, consumes nothing, no read beyond the memory) is demanded in every fill-mark flavour, also when the read cursor is beyond the fill mark (a byte_buffer_space() descriptor after its first decode); "
